@@ -1,8 +1,14 @@
 ----------------------------- MODULE TrainCtlMC -----------------------------
 (* Model-checking instances of TrainCtl: parameter spaces (a .cfg cannot hold record sets). *)
 EXTENDS TrainCtl
-PS(Ps, Bs, THs, RPs, RBs, RCs, RTHs, NEs, EKs) ==
-  [P : Ps, B : Bs, TH : THs, RP : RPs, RB : RBs, RC : RCs, RTH : RTHs, ne : NEs, EK : EKs]
+\* optimizer set-ups <<LG, OG, SD>> (see TrainCtl): the standard one - configured initial rate, state directory -
+\* and the others: history file alone; optimizer's own default rate; group 2 constructed with a rate of its own
+StdMode == {<<1, 0, 1>>}
+OptModes == {<<1, 0, 0>>, <<0, 0, 1>>, <<0, 0, 0>>, <<0, 1, 1>>, <<0, 1, 0>>}
+PSX(Ps, Bs, THs, RPs, RBs, RCs, RTHs, NEs, EKs, Modes) ==
+  {r \in [P : Ps, B : Bs, TH : THs, RP : RPs, RB : RBs, RC : RCs, RTH : RTHs, ne : NEs, EK : EKs,
+          LG : {0, 1}, OG : {0, 1}, SD : {0, 1}] : <<r.LG, r.OG, r.SD>> \in Modes}
+PS(Ps, Bs, THs, RPs, RBs, RCs, RTHs, NEs, EKs) == PSX(Ps, Bs, THs, RPs, RBs, RCs, RTHs, NEs, EKs, StdMode)
 \* design: every patience / burn-in / cool-down / threshold combination, unlimited epochs
 ParamsDesign == PS(1..3, 0..2, 0..2, 1..3, 0..2, 0..2, 0..2, {0}, {9})
 \* design: epoch budgets and the epsilon guard (EK = number of non-negligible reductions)
@@ -14,6 +20,12 @@ ParamsReplayThorough == PS(1..3, {0, 1, 2}, {0, 1}, {1, 2}, {0, 2}, {0, 1}, {0, 
 ParamsRbDesign == PS({1, 2}, {0, 1}, {0, 1}, {1, 2}, {0}, {0}, {1}, {0, 3}, {9})
 ParamsRbDesignThorough == PS(1..3, {0, 1, 2}, {0, 1}, {1, 2}, {0, 1}, {0, 1}, {1}, {0, 3}, {9})
 ParamsRbReplay == PS({1, 2}, {0, 1}, {0, 1}, {1, 2}, {0}, {0}, {1}, {0, 3}, {9})
+\* parameter groups / restarts from the history file alone: design (TrainCtl_groups*.cfg) and replay (TrainCtlOpt)
+ParamsGroups == PSX({2}, {0}, {0, 1}, {1, 2}, {0, 1}, {0, 1}, {1}, {0}, {1, 9}, OptModes \cup StdMode)
+ParamsGroupsThorough == PSX({1, 2}, {0, 1}, {0, 1}, {1, 2}, {0, 1}, {0, 1}, {1}, {0, 3}, {1, 9}, OptModes \cup StdMode)
+ParamsOptReplay == PSX({2}, {0}, {0}, {1, 2}, {0, 1}, {0, 1}, {1}, {0}, {1, 9}, OptModes)
+ParamsOptReplayThorough == PSX({2}, {0}, {0, 1}, {1, 2}, {0, 1}, {0, 1}, {1}, {0}, {1, 9}, OptModes)
+L2 == {1, 2}
 L3 == {1, 2, 3}
 L4 == {1, 2, 3, 4}
 =============================================================================
